@@ -190,8 +190,9 @@ def case_to_coq(c, fix_presence=False, fix_nopeers=False):
         jobs.append("(Build_job %s %s, %s)" % (script, cbool(j["catchup"]), cbool(job_honest(c, j))))
     obs = []
     for o in c["obs"]:
-        obs.append("(Build_jobobs %s %s %s %s %s)" % (chopt(unh(o["final"])), chopt(unh(o["part"])), clist([cz(x) for x in o["cnt"]]),
-                                                       cbool(o["fully"]), cbool(o["cu_failed"])))
+        mid = clist([chopt(unh(m)) for m in o.get("mid") or []]) if o.get("mid") else "(@nil (option bytes))"
+        obs.append("(Build_jobobs %s %s %s %s %s %s)" % (chopt(unh(o["final"])), chopt(unh(o["part"])), clist([cz(x) for x in o["cnt"]]),
+                                                          cbool(o["fully"]), cbool(o["cu_failed"]), mid))
     return "(mk_rcase %s %s %s (Build_config %d%%nat %s %s) %s %s (fun ct sh => %s) %s)" % (
         ch(bytes.fromhex(c["content"])), cbool(c["sha_ok"]), cz(c["size"]), c["max_attempts"], cbool(fix_presence), cbool(fix_nopeers),
         chopt(unh(c["final0"])), chopt(unh(c["part0"])), clist(jobs), clist(obs))
@@ -201,7 +202,9 @@ def run_impl(cases, tag):
     inp = [{k: c[k] for k in ("content", "sha_ok", "size", "max_attempts", "final0", "part0", "jobs")} for c in cases]
     out = vlib.run_go_harness("C25", "./internal/cluster/filereplication/", "^TestVerifFileRepl$",
                               {"internal/cluster/filereplication/zz_filerepl_verif_test.go": "harness/filerepl/filerepl_verif_test.go"},
-                              inp, tag=tag)
+                              inp, tag=tag,
+                              # observation point between "last body byte written" and the digest verdict
+                              rewrites={"internal/cluster/filereplication/fetch_client.go": [("hasher.Sum(nil)", "verifSum(hasher, byteOffset)", 1)]})
     if len(out) != len(cases):
         raise vlib.TieBroken("C25 harness returned %d results for %d cases" % (len(out), len(cases)))
     res = []
@@ -248,6 +251,10 @@ def explain(c):
         final_ok = fin is not None and c["sha_ok"] and fin == content and len(fin) == c["size"]
         d = [a - b for a, b in zip(o["cnt"], prev)]
         prev = o["cnt"]
+        bad_mid = [m for m in (o.get("mid") or []) if m is not None and not (c["sha_ok"] and unh(m) == content and len(unh(m)) == c["size"])]
+        if bad_mid:
+            out.append((i, "final-transient", None))
+            continue
         if fin is not None and not final_ok:
             out.append((i, "final", None))
             continue
